@@ -143,7 +143,30 @@ def h_adjacent(ctx, cls):
     ctx.check("each unknown (non-vendor) insertion is reported by an UnknownTagWarning", count_unknown(cats) == (0 if kind1.startswith("vendor") else 1))
 
 
-HARNESSES = dict(insert=h_insert, adjacent=h_adjacent)
+def h_many(ctx, cls, n):
+    """n concrete unknown elements among the children of the root (a chatty server), plus one symbolic insertion"""
+    K = ofxgen.class_by_name(cls)
+    inst = doc_for(K)
+    clean = inst.to_etree()
+    want, _ = try_convert(copy.deepcopy(clean))
+    tree = copy.deepcopy(clean)
+    for i in range(n):
+        e = ET.Element("ZZ%d" % i)
+        if i % 3:
+            e.text = "v%d" % i
+        tree.insert((i * 5) % (len(tree) + 1), e)
+    kind = ctx.choice("kind", KINDS[:5])
+    pos = ctx.choice("pos", [0, len(tree) // 2, len(tree)])
+    tree.insert(pos, make_node(ctx, kind, "0", K, clean))
+    got, cats = try_convert(tree)
+    ctx.check("a document with unknown / vendor tags inserted is not rejected", got is not None)
+    if got is None:
+        return
+    ctx.check("the converted model equals the conversion of the document without the insertions", same_model(ctx, got, want))
+    ctx.check("each unknown (non-vendor) insertion is reported by an UnknownTagWarning", count_unknown(cats) == n + (0 if kind.startswith("vendor") else 1))
+
+
+HARNESSES = dict(insert=h_insert, adjacent=h_adjacent, many=h_many)
 
 META = dict(
     bounds=dict(insertions="two adjacent nodes (vendor node + any kind) at every position of the root (quick: core classes; thorough: every class); quick: 1 node at depth <= 1; thorough: 1 node at depth <= 2 for every class and 2 nodes at depth <= 1 for core classes (per-instance budget 6000 paths)",
@@ -158,6 +181,8 @@ META = dict(
 def instances(tier, seed):
     out = []
     full = tier != "quick"
+    for cn in (["STMTRS", "STMTTRN", "SONRS"] if not full else ["STMTRS", "STMTTRN", "SONRS", "INVSTMTRS", "BANKTRANLIST", "OFX", "SECLIST", "INVPOSLIST"]):
+        out.append(dict(name=f"many[{cn},25]", harness="many", fn=h_many, params=dict(cls=cn, n=25 if not full else 120), opts=dict(wall_s=240, max_paths=3000)))
     for K in ofxgen.pick_classes(tier, seed):
         n = K.__name__
         if not full:
